@@ -174,11 +174,14 @@ def leaf_oracle(ctx, apr, sync, script, trace, out, p):
         asks = [(t[1], t[2]) for t in trace if t[0] == 'ask']
         prompt_seen = any(q[0] == 'expect' and q[1] in (0, 1) and a == 1 for q, a in asks)
         unique_set = any(q[0] == 'expect' and q[1] == 2 and a == 1 for q, a in asks)
-        synced = sync            # a True return with sync enabled means sync_original_prompt() returned True
+        # re-synchronisation counts as evidence only if something that looks like a prompt came back
+        texts = [a for q, a in asks if q[0] == 'read_prompt']
+        synced = sync and len(texts) >= 4 and len(texts[2]) > 0 and len(texts[3]) > 0
         if apr and not unique_set:
             return ('C17/true-without-unique-prompt', 'login returned True with auto_prompt_reset but the unique prompt was never seen')
         if not (prompt_seen or unique_set or synced):
-            return ('C17/silent-success', 'login(auto_prompt_reset=%s, sync_original_prompt=%s) returned True although no shell prompt was ever seen '
+            key = 'C17/silent-success' if (not apr and not sync) else 'C17/success-without-prompt'
+            return (key, 'login(auto_prompt_reset=%s, sync_original_prompt=%s) returned True although no shell prompt was ever seen '
                     '(the dialogue timed out)' % (apr, sync))
     else:
         # a failed login must have closed the connection unless the exception came from the transport itself
@@ -246,14 +249,14 @@ def run(ctx):
     template = pxssh_mod.pxssh()
     for apr in (True, False):
         for sync in (True, False):
-            leaves, complete = explore(make_runner(pexpect, pxssh_mod, apr, sync), max_leaves=400000)
+            leaves, complete = explore(make_runner(pexpect, pxssh_mod, apr, sync), max_leaves=60000, max_nodes=120000, budget_s=25.0)
             complete_all &= complete
             for script, trace, out in leaves:
                 nleaves += 1
                 p = template
                 outcomes[out[0]] = outcomes.get(out[0], 0) + 1
                 v = leaf_oracle(ctx, apr, sync, script, trace, out, p)
-                if v and (nhit < 5 or v[0] == 'C17/silent-success'):
+                if v and (nhit < 5 or v[0] in ('C17/silent-success', 'C17/success-without-prompt')):
                     nhit += 1
                     ctx.hit(v[0], 'login(auto_prompt_reset=%s, sync_original_prompt=%s), answers %r: %s' % (apr, sync, script, v[1]),
                             {'auto_prompt_reset': apr, 'sync_original_prompt': sync, 'answers': script,
@@ -264,7 +267,7 @@ def run(ctx):
     if not complete_all:
         ctx.corr_broken.append(('tree-login', {'error': 'decision tree exploration did not terminate within bounds'}))
     # thin the cases for the quick tier: the sync texts multiply the tree (8^4 per path); keep every distinct index path and a sample of texts
-    if not thorough and len(cases) > 6000:
+    if len(cases) > (30000 if thorough else 6000):
         rng = ctx.rng
         keep, seen = [], set()
         for c in cases:
@@ -272,7 +275,7 @@ def run(ctx):
             if key not in seen or rng.random() < 0.01:
                 seen.add(key)
                 keep.append(c)
-        cases = keep
+        cases = keep[:30000 if thorough else 4000]
     rng = ctx.rng
     lev = []
     P = pxssh_mod.pxssh.__new__(pxssh_mod.pxssh)
